@@ -219,12 +219,12 @@ PROPERTIES['C04'] = {
     'level': 'other',
     'configs': two,
     'rules': [olc('LOCK-1'), olc('LOCK-5'), R(olcrules.lock6), R(olcrules.lock6b),
-              R(qsbr.q_free_paths), R(qsbr.q_rotation), R(qsbr.q_barriers), R(lambda cfg: qsbr.q_orphans(cfg, parts=('7', '9'))), R(qsbr.q_tagging), R(qsbr.q_last_out), R(qsbr.q_register_epoch),
+              R(qsbr.q_free_paths), R(qsbr.q_rotation), R(qsbr.q_barriers), R(lambda cfg: qsbr.q_orphans(cfg, parts=('7', '9'))), R(qsbr.q_tagging), R(qsbr.q_last_out), R(qsbr.q_register_epoch), R(qsbr.q_wrap),
               R(lambda cfg: qsbr.q_rotation(cfg, parts=('3',))), R(qsbr.q_cas), R(lambda cfg: qsbr.q_orphans(cfg, parts=('8',))), R(qsbr.q_tail_link), R(qsbr.q_sink), R(ptr.ptr3), R(point.lock11)],
     'technique': 'static analysis: relational typestate dataflow (validate-before-dereference, obsolete-before-retire), who-may-construct rule for immediate-deleter owners; the QSBR who-may-free / ordering / control-dependence rules of C05',
     'explanation': 'Structural safety conditions of "no use of reclaimed memory": LOCK-1 (no pointer obtained from a node is followed before the read section on that node is re-validated, so a stale pointer to a retired node is never dereferenced) '
                    'and LOCK-5 (every node an OLC operation hands to reclamation was unlocked-and-obsoleted by it first, so readers still holding a section on it restart; checked at restart returns too - a node retired and then abandoned by a restart is still linked), on every path of every OLC function, both key kinds; '
-                   'LOCK-6 (in the OLC instantiation an existing node is never wrapped in an owner with the immediate deleter outside the single-threaded teardown: ever-reachable nodes are freed only through QSBR); LOCK-6b (the reclaiming deleters hand exactly the node they were given, with its size, to on_next_epoch_deallocate and free nothing themselves). The second half of the property - what was retired is not freed before every reader that might hold it has quiesced - rests on the QSBR safety generators, which are therefore checked here too: Q-1,2,3,4,5,7,9,10,11,12,14 (see C05); and the last clause - every unlinked node is freed exactly once - on the linearity rules of C06 (Q-3, Q-6, Q-8, Q-13, Q-15/16). PTR-3 the span handed out by get() reproduces the data / size of the value view; LOCK-11 no definitive result after a failed lock step.',
+                   'LOCK-6 (in the OLC instantiation an existing node is never wrapped in an owner with the immediate deleter outside the single-threaded teardown: ever-reachable nodes are freed only through QSBR); LOCK-6b (the reclaiming deleters hand exactly the node they were given, with its size, to on_next_epoch_deallocate and free nothing themselves). The second half of the property - what was retired is not freed before every reader that might hold it has quiesced - rests on the QSBR safety generators, which are therefore checked here too: Q-1,2,3,4,5,7,9,10,11,12,14,17 (see C05); and the last clause - every unlinked node is freed exactly once - on the linearity rules of C06 (Q-3, Q-6, Q-8, Q-13, Q-15/16). PTR-3 the span handed out by get() reproduces the data / size of the value view; LOCK-11 no definitive result after a failed lock step.',
     'decides': 'validate-before-dereference; obsolete-before-retire; deferred free only; the local generators of the two-epoch delay of QSBR',
     'does_not_decide': 'the global epoch invariant of QSBR under all interleavings (as C05); eventual reclamation as liveness',
 }
@@ -244,10 +244,10 @@ PROPERTIES['C09'] = {
 PROPERTIES['C14'] = {
     'level': 'other',
     'configs': two,
-    'rules': [olc('LOCK-3'), olc('LOCK-4'), olc('LOCK-7'), R(point.lock10), R(lock2_obsoleting), R(lockword.lw)],
+    'rules': [olc('LOCK-3'), olc('LOCK-4'), olc('LOCK-7'), R(lock7a), R(lockword.lw6), R(point.lock10), R(lock2_obsoleting), R(lockword.lw)],
     'technique': 'static analysis: relational typestate dataflow for lock order / no-wait-while-locked / guard typestate on every CFG path incl. exceptional exits of scope guards; path-sensitive effect flow (obsoletion followed by a restart result)',
     'explanation': 'No-deadlock / no-lock-left-held conditions: LOCK-3 (write ownership is only taken by non-blocking upgrade in root-to-leaf order and no waiting primitive - try_read_lock spin, spin_wait_loop_body - is reached while a guard is active, '
-                   'so no wait-for cycle can contain a writer and readers hold nothing), LOCK-4 (no operation on a guard that is not active: no double unlock / null dereference; guards are scope-bound RAII objects), LOCK-7b (sections are not validated after they ended), LOCK-10 (obsoletion is a point of no return: no path marks a node obsolete and then abandons the attempt with a restart result while the node is still linked - otherwise every later operation reaching that node restarts for ever although nobody holds a lock; path-sensitive effect flow with callee summaries), LOCK-2 restricted to functions that obsolete a node (the store that replaces / unlinks the obsoleted node in its parent is made under the active write guard of the parent: a store after the guard is gone can hit a slot that has moved, and the obsolete node stays linked); the lock-word premises LW-1..5 of C07 (write ownership only through write_guard and released by it, the try_read_lock wait loop leaves on an obsolete word, ...) are reported here too: the anchors of this property include the lock.',
+                   'so no wait-for cycle can contain a writer and readers hold nothing), LOCK-4 (no operation on a guard that is not active: no double unlock / null dereference; guards are scope-bound RAII objects), LOCK-7b (sections are not validated after they ended), LOCK-7a / LW-6 (optimistic read locks are counted per node in assertion-enabled builds - the only sense in which a reader holds a node: no open section is overwritten by assignment, with per-return summaries of the helpers that end or keep the sections they are handed, and check / try_read_unlock / upgrade give the unit back on exactly the paths on which the section forgets its lock - so an operation that returns leaves no node read-locked, which would abort the later operation that frees that node), LOCK-10 (obsoletion is a point of no return: no path marks a node obsolete and then abandons the attempt with a restart result while the node is still linked - otherwise every later operation reaching that node restarts for ever although nobody holds a lock; path-sensitive effect flow with callee summaries), LOCK-2 restricted to functions that obsolete a node (the store that replaces / unlinks the obsoleted node in its parent is made under the active write guard of the parent: a store after the guard is gone can hit a slot that has moved, and the obsolete node stays linked); the lock-word premises LW-1..5 of C07 (write ownership only through write_guard and released by it, the try_read_lock wait loop leaves on an obsolete word, ...) are reported here too: the anchors of this property include the lock.',
     'decides': 'lock acquisition order, no-wait-while-locked, guard typestate, no restart after obsoletion',
     'does_not_decide': 'freedom from starvation / livelock (the lock header itself says readers can starve)',
 }
@@ -278,8 +278,8 @@ PROPERTIES['C07'] = {
     'explanation': 'The optimistic lock is one atomic word; mutual exclusion of write guards, snapshot consistency of validated read sections, upgrade-iff-unchanged and finality of the obsolete state follow from five premises by a short written argument '
                    '(DESIGN.md, C07: free words strictly increase by 4, the write bit is set between a successful upgrade and the unlock, the obsolete word is odd and terminal; Boehm\'s seqlock argument for the orders). This check discharges the premises on the source: '
                    'LW-1 the word is written only by {CAS w -> w.set_locked_bit(), store old+2, store obsolete constant}, reachable only through write_guard, which deactivates itself; LW-2 value facts of is_free / is_write_locked / is_obsolete / set_locked_bit by evaluating the expression trees over the finite quotient (v mod 4, v = obsolete word); '
-                   'LW-3 recorded words are free words (try_read_lock path conditions judged by admitted word classes; rehydrate takes only rcs.get() values); LW-4 memory-order table (acquire load / acquire fence before the validating load / acquire CAS / release stores, protected fields are std::atomic); LW-5 whole-word equality in check / try_read_unlock.',
-    'decides': 'all premises of the lock-level argument (LW-1..LW-5), every configuration in the thorough tier',
+                   'LW-3 recorded words are free words (try_read_lock path conditions judged by admitted word classes; rehydrate takes only rcs.get() values); LW-7 every link of the guard -> lock -> word chain makes exactly its own transition on every path (unlock_and_obsolete really obsoletes, write_unlock stores old+2, write_unlock_and_obsolete stores the obsolete constant); LW-8 moving a read section takes over lock AND version of the source on every path (an assignment from a must-restart section cannot leave the previous snapshot behind); LW-4 memory-order table (acquire load / acquire fence before the validating load / acquire CAS / release stores, protected fields are std::atomic); LW-5 whole-word equality in check / try_read_unlock.',
+    'decides': 'all premises of the lock-level argument (LW-1..LW-5, LW-7, LW-8), every configuration in the thorough tier',
     'does_not_decide': 'the C++ memory-model argument itself (trusted: Boehm 2012), 64-bit wrap of the version; the use of the lock by the tree (C03/C14)',
     'trusted_base': ['clang 14 front end', 'usa extractor and rule engine', 'written argument in DESIGN.md section 6 (C07)', 'C++11 memory model / seqlock argument (Boehm, MSPC 2012)', 'the version counter does not wrap in 2^62 write cycles'],
     'assumptions': ['UNODB_DETAIL_THREAD_SANITIZER builds (fence replaced by TSan annotations) are outside the configuration matrix'],
@@ -319,14 +319,14 @@ def stats_axis(tier):
 PROPERTIES['C05'] = {
     'level': 'other',
     'configs': stats_axis,
-    'rules': [R(qsbr.q_free_paths), R(qsbr.q_rotation), R(qsbr.q_barriers), R(lambda cfg: qsbr.q_orphans(cfg, parts=('7', '9'))), R(qsbr.q_tagging), R(qsbr.q_last_out), R(qsbr.q_register_epoch), R(qsbr.q_cas)],
+    'rules': [R(qsbr.q_free_paths), R(qsbr.q_rotation), R(qsbr.q_barriers), R(lambda cfg: qsbr.q_orphans(cfg, parts=('7', '9'))), R(qsbr.q_tagging), R(qsbr.q_last_out), R(qsbr.q_register_epoch), R(qsbr.q_cas), R(qsbr.q_wrap)],
     'technique': 'static analysis: call-graph who-may-call rules for the free sink, ordering/dominance and control-dependence rules on the rotation, path-sensitive boolean dataflow for barriers and once-only orphan handling, memory-order table',
     'explanation': 'Structural safety conditions of "QSBR never frees what a registered thread may still reference", each decided on every CFG path of qsbr.hpp/qsbr.cpp (stats on/off, debug/release): '
                    'Q-1 requests reach qsbr::deallocate only through ~deferred_requests, or at once only under single-thread mode; Q-2 only the previous-interval list (and, under single-thread mode, the current one; orphans likewise) is handed to the free sink; '
                    'Q-3 in the rotation the previous list is moved out before it receives the current list; Q-4 every rotation is control-dependent on an observed epoch change; '
                    'Q-5 the release barrier precedes every announcement (path-sensitive on the leave-previous-epoch flag), the acquire fence opens orphan handling, orphans are handled exactly once before every epoch-advancing write (at most once per unregister_thread call even across CAS retries), state-word RMWs are acq_rel and loads acquire; '
-                   'Q-7 a quitting / pausing thread hands its previous-interval list to the previous orphan list and its current-interval list to the current one (crossing them ages requests one epoch too fast), every taken orphan list reaches exactly one sink; Q-9 a thread leaves the previous epoch at most once per epoch; Q-12 the epoch is advanced (change_epoch, or the advancing state update of a quitting thread) only when the observed count of threads still in the previous epoch is exactly 1; Q-11 a request joins the current-interval list only on paths where last_seen_epoch was just compared equal to the freshly read global epoch; Q-10 the single-thread-mode decision is taken on the observed old state, never on the state produced by the thread\'s own update.',
-    'decides': 'Q-1,2,3,4,5,7,9,10,11,12,14: the local generators of the two-epoch delay',
+                   'Q-7 a quitting / pausing thread hands its previous-interval list to the previous orphan list and its current-interval list to the current one (crossing them ages requests one epoch too fast), every taken orphan list reaches exactly one sink; Q-9 a thread leaves the previous epoch at most once per epoch; Q-12 the epoch is advanced (change_epoch, or the advancing state update of a quitting thread) only when the observed count of threads still in the previous epoch is exactly 1; Q-11 a request joins the current-interval list only on paths where last_seen_epoch was just compared equal to the freshly read global epoch; Q-10 the single-thread-mode decision is taken on the observed old state, never on the state produced by the thread\'s own update; Q-14 / Q-14b a registering thread is counted into the previous epoch exactly when the observed count of that epoch is non-zero or no thread exists (case walk over the four sign classes of the two observed counts), and a thread that could only bump the thread count returns the new epoch; Q-17 the per-thread quiescent-state counter, whose comparison with zero decides whether the thread has already left the previous epoch, is 64 bits wide in the field and in every parameter it is handed through (a 32-bit counter wraps within minutes and the thread leaves the epoch twice).',
+    'decides': 'Q-1,2,3,4,5,7,9,10,11,12,14,17: the local generators of the two-epoch delay',
     'does_not_decide': 'the global invariant "the epoch advances only when every registered thread has quiesced" under all interleavings of register/unregister with an epoch change; bit-level arithmetic of inc_epoch_* helpers',
 }
 PROPERTIES['C06'] = {
